@@ -157,7 +157,19 @@ func cmdVerify(args []string) {
 }
 
 // verifyFunc generates the obligations of one function under contract.
-func verifyFunc(p *Program, st *Symtab, fn string, layer string, opts map[string]string) (obs []*Obligation, covers []*Obligation, err error) {
+func verifyFunc(p *Program, st0 *Symtab, fn string, layer string, opts map[string]string) (obs []*Obligation, covers []*Obligation, err error) {
+	// one symbol table per function: the fresh-name counter restarts, so the queries of a function
+	// are textually the same in every check that includes it (and hit the result cache)
+	st := NewSymtab()
+	quantCounter, lazyCounter = 0, 0
+	defer func() {
+		for _, o := range obs {
+			o.St = st
+		}
+		for _, o := range covers {
+			o.St = st
+		}
+	}()
 	ex, err := NewExec(p, st, fn)
 	if err != nil {
 		return nil, nil, err
